@@ -39,7 +39,33 @@ def emit_item(it, ctx, meta, modpath, emit_items, weave_fn, filter_attrs, strip_
         drop = ("Debug",) if it.name in DYN_HOLDERS else ()
         attrs = filter_attrs(it, ctx, extra_drop_derives=drop)
         toks = it.toks
-        if it.body is not None:
+        ient = ctx.ov.items.get(it.key)
+        if it.body is not None and ient and ient.get("private"):
+            ient["used"] = True
+            body = text_of(it.body)   # type-invariant carrying type: fields stay private (R8 exception)
+            txt = _pub(text_of(it.header), it, ctx) + "{" + body + "}"
+            # R18: derive(Clone) -> explicit field-wise clone (what derive expands to), external_body with `r == *self`
+            new_attrs = []
+            had_clone = False
+            for a in attrs:
+                m = re.match(r"#\[derive\((.*)\)\]", a)
+                if m:
+                    parts = [x.strip() for x in m.group(1).split(",")]
+                    if "Clone" in parts:
+                        had_clone = True
+                        parts = [x for x in parts if x != "Clone"]
+                    a = "#[derive(%s)]" % ", ".join(parts) if parts else ""
+                if a:
+                    new_attrs.append(a)
+            attrs = new_attrs
+            if had_clone:
+                mh = re.search(r"struct\s+(\w+)\s*(<[^>{]*>)?", text_of(it.header))
+                gen = mh.group(2) or ""
+                fields = re.findall(r"(\w+)\s*:", body)
+                ctor = ", ".join("%s: self.%s.clone()" % (f, f) for f in fields)
+                txt += "\nimpl%s Clone for %s%s {\n    #[verifier::external_body]\n    fn clone(&self) -> (r: Self)\n        ensures r == *self,\n    { %s { %s } }\n}" % (gen, mh.group(1), gen, mh.group(1), ctor)
+                ctx.log.append({"rule": "R18", "file": ctx.cur_file, "line": it.line, "what": "derive(Clone) of %s replaced by explicit field-wise clone (external_body, r == *self)" % it.name})
+        elif it.body is not None:
             body = pub_fields(it.body)
             txt = _pub(text_of(it.header), it, ctx) + "{" + body + "}"
         else:
